@@ -359,13 +359,15 @@ func (s *subsetter) SubsetGpos(old *gtab.Info) *gtab.Info {
 			case gtab.Gpos2_1:
 				sNew := gtab.Gpos2_1{}
 				for pair, adj := range sOld {
-					if _, ok := s.newGid[pair.Left]; !ok {
+					newLeft, ok := s.newGid[pair.Left]
+					if !ok {
 						continue
 					}
-					if _, ok := s.newGid[pair.Right]; !ok {
+					newRight, ok := s.newGid[pair.Right]
+					if !ok {
 						continue
 					}
-					sNew[pair] = adj
+					sNew[glyph.Pair{Left: newLeft, Right: newRight}] = adj
 				}
 				tNew.Subtables[j] = sNew
 			case *gtab.Gpos2_2:
